@@ -217,6 +217,9 @@ def gen_real_traces(tier, rng, prop):
         else:
             cfg = layouts[k % len(layouts)]
             big = any(b["kind"] == "seq" and b["size"] > 10000 for b in cfg["blocks"].values())
+            if big and tier == "quick" and (k // len(layouts)) % 5:
+                cfg = layouts[(k * 7) % 5]          # full-size tables are expensive to dump: one turn in five in the quick tier
+                big = any(b["kind"] == "seq" and b["size"] > 10000 for b in cfg["blocks"].values())
             path = "sync" if k % 4 == 0 else "direct"
         ln = rng.randint(1, 8 if big else 30)
         pdus = []
